@@ -59,6 +59,8 @@ func faultCases() []eng.FaultCase {
 		w("drop-index", m.Op{K: "dropIndex", Coll: "a", Field: "x"}),
 		{Name: "insert-batch-700", Op: ins("a", manyDocs(700)...), OnlyPre: "3-docs+index-x"},
 		{Name: "insert-batch-1300", Op: ins("a", manyDocs(1300)...), OnlyPre: "3-docs"},
+		w("updatefunc-invalid-result-for-first", m.Op{K: "updateFunc", Q: qOn("a", nil), Upd: &m.Updater{Set: setMap("w", int64(1)), Style: "copy", BadFor: u1}}),
+		w("updatefunc-invalid-result-for-second", m.Op{K: "updateFunc", Q: &m.Q{Coll: "a", Sort: sortBy("y", 1)}, Upd: &m.Updater{Set: setMap("x", int64(3)), Style: "inplace", BadFor: u2}}),
 		w("import-collection", m.Op{K: "import", Coll: "imp", Text: importFile, Docs: []m.Doc{doc(eng.ID(7), "x", float64(1)), doc(eng.ID(8), "x", float64(2))}}),
 		w("create-collection-by-query", m.Op{K: "createByQuery", Coll: "cq", Q: qOn("a", x1)}),
 		r("find-all", m.Op{K: "findAll", Q: qOn("a", x1)}),
@@ -142,7 +144,7 @@ func bigBatchInvalid(run *ev.Run) {
 
 func init() {
 	register("C04", "fault_enumeration", func(run *ev.Run, tier string) string {
-		tags := own("panic", "leak", "fault-swallowed", "fault-changed-state", "after-fault", "setup", "error-changed-state")
+		tags := own("panic", "leak", "fault-swallowed", "fault-changed-state", "after-fault", "fault-free-run", "setup", "error-changed-state")
 		eng.FaultEnum(run, []string{drv.BBolt, drv.Badger}, faultPres(tier), faultCases(), tags)
 		bigBatchInvalid(run)
 		// invalid input: every erroring transition of the id / name / index alphabets must leave the state unchanged
